@@ -243,6 +243,7 @@ def run_check(pid, tier, spec):
             "outcome_counters": counters,
             "undecided_cases": total["undecided"],
             "caps_hit": incomplete,
+            "exhaustive_note": spec.get("exhaustive_note", "every family enumerates its stated finite space completely"),
             "known_findings_observed": {s: h["n"] for s, h in known_hits.items()},
         },
         "assumptions": spec.get("assumptions", []),
